@@ -9,14 +9,18 @@ VARIABLES l, bad, skip
 vars == <<l, bad, skip>>
 PhysFp(m, c) == FMul(FDiv(m[1], m[2]), FpOf(c))
 Names1(c) == {ItemRes(c[i])[3] : i \in 1..Len(c)}
-\* dimensionalities proportional (and not dimensionless): the two units could be merged
-Proportional(d1, d2) == DOMAIN d1 # {} /\ DOMAIN d1 = DOMAIN d2 /\
-    LET k == CHOOSE x \in DOMAIN d1 : TRUE  r == RDiv(d1[k], d2[k]) IN \A x \in DOMAIN d1 : d1[x] = RMul(r, d2[x])
+\* dimensionalities proportional - or both empty (two dimensionless named units have equal dimensionality) -: the two units could be merged
+Proportional(d1, d2) == DOMAIN d1 = DOMAIN d2 /\
+    (DOMAIN d1 = {} \/ LET k == CHOOSE x \in DOMAIN d1 : TRUE  r == RDiv(d1[k], d2[k]) IN \A x \in DOMAIN d1 : d1[x] = RMul(r, d2[x]))
 MergeablePair(c) == \E i, j \in 1..Len(c) : i # j /\ Proportional(DimUnit(ItemRes(c[i])[3]), DimUnit(ItemRes(c[j])[3]))
 RootOnly(c) == \A i \in 1..Len(c) : ItemRes(c[i])[2] = "_empty" /\ Units[ItemRes(c[i])[3]].base
-\* to_compact: after stripping prefixes both containers are the same, and at most one unit carries a prefix in the output
-Stripped(c) == IF c = <<>> THEN Empty ELSE LET RECURSIVE St(_)
-                   St(x) == IF x = <<>> THEN Empty ELSE Mul(Single(ItemRes(x[1])[3], x[1].e), St(Tail(x))) IN St(c)
+\* to_compact: after stripping prefixes both containers are the same, and at most one unit carries a prefix in the output.
+\* A defined name may itself read as prefix + unit of the same value (kilometer_per_second = kilo + meter_per_second); the item then
+\* carries that unit as `alt`, and either stem is admissible: the set of possible stripped containers.
+StemsOf(it) == {ItemRes(it)[3]} \cup (IF "alt" \in DOMAIN it /\ it.alt # "_none" THEN {it.alt} ELSE {})
+RECURSIVE StrippedSet(_)
+StrippedSet(c) == IF c = <<>> THEN {Empty} ELSE {Mul(Single(st, c[1].e), rest) : st \in StemsOf(c[1]), rest \in StrippedSet(Tail(c))}
+PrefixedMin(c) == Cardinality({i \in 1..Len(c) : ItemRes(c[i])[2] # "_empty" \/ ("alt" \in DOMAIN c[i] /\ c[i].alt # "_none")})
 Prefixed(c) == {i \in 1..Len(c) : ItemRes(c[i])[2] # "_empty"}
 Clauses(e) ==
     IF ~(AllResolve(e.a) /\ AllResolve(e.b)) THEN {"resolve"}
@@ -24,7 +28,7 @@ Clauses(e) ==
          \cup (IF ExactOf(e.a) /\ ExactOf(e.b) /\ e.exactmag /\ PhysFp(e.am, e.a) # PhysFp(e.bm, e.b) THEN {"physical-value"} ELSE {})
          \cup (IF e.op = "root" /\ ~RootOnly(e.b) THEN {"not-root-units"} ELSE {})
          \cup (IF e.op = "reduced" /\ Len(e.b) > 1 /\ DimOf(e.b) # Empty /\ MergeablePair(e.b) THEN {"mergeable-pair-left"} ELSE {})
-         \cup (IF e.op = "compact" /\ e.changed /\ (Stripped(e.a) # Stripped(e.b) \/ Cardinality(Prefixed(e.b)) > 1) THEN {"compact-changed-more-than-a-prefix"} ELSE {})
+         \cup (IF e.op = "compact" /\ e.changed /\ (StrippedSet(e.a) \cap StrippedSet(e.b) = {} \/ Cardinality(Prefixed(e.b)) > 1) THEN {"compact-changed-more-than-a-prefix"} ELSE {})
 Init == l = 1 /\ bad = {} /\ skip = {}
 Next == /\ l <= Len(Trace)
         /\ bad' = bad \cup {<<l, c>> : c \in Clauses(Trace[l])}
